@@ -40,8 +40,11 @@ KNOWN_CORR = 'passing-correction-shows-first-test-marks'
 # results (never call table_repr / rst for these)
 
 def fmt(x):
-    '''the formatted input of a table cell: '{:11.6g}' for floats, str otherwise'''
-    if isinstance(x, (float, np.floating)):
+    '''the formatted input of a table cell, as RstTable documents it: numeric data of an inexact
+    type (Python float / complex, every numpy floating or complex type: float16, float32, float64,
+    longdouble, complex64, ...) goes through the number format '{:11.6g}'; anything else (integers
+    of every width, booleans, strings) is stringified with str'''
+    if isinstance(x, (float, complex, np.inexact)):
         return '{:11.6g}'.format(x)
     return str(x)
 
@@ -121,19 +124,28 @@ class Lay:
         return relayout(arr, mode)
 
 
-def _dataset(shape, value, error, kinds, name, lay=None):
+VALUE_DTYPES = ['f4', 'f2', 'g', 'f8', 'i1', 'i2', 'i4', 'i8', 'u1', 'u4', 'b1']
+ERROR_DTYPES = ['f8', 'f4', 'f2', 'g']
+
+
+def _dataset(shape, value, error, kinds, name, lay=None, dtypes=(None, None)):
     from valjean.eponine.dataset import Dataset
     lay = lay or Lay('C')
+    vdt, edt = dtypes
     if shape == ():
-        return Dataset(np.float64(value[0]), np.float64(error[0]), name=name)
+        if vdt == 'py':        # Python scalars (the constructor converts them)
+            return Dataset(float(value[0]), float(error[0]), name=name)
+        return Dataset(np.dtype(vdt or 'f8').type(value[0]), np.dtype(edt or 'f8').type(error[0]), name=name)
+    if vdt == 'py':
+        vdt = None
     bins = OrderedDict()
     for k, (n, kind) in enumerate(zip(shape, kinds)):
         if kind == 'e':
             bins[f'x{k}'] = np.arange(n + 1, dtype=float) * (k + 1)
         else:
             bins[f'x{k}'] = np.arange(n, dtype=float) * (k + 1) + 0.5
-    return Dataset(lay(np.array(value, dtype=float).reshape(shape)),
-                   lay(np.array(error, dtype=float).reshape(shape)), bins=bins, name=name)
+    return Dataset(lay(np.array(value, dtype=float).astype(vdt or 'f8').reshape(shape)),
+                   lay(np.array(error, dtype=float).astype(edt or 'f8').reshape(shape)), bins=bins, name=name)
 
 
 def relayout_result(kind, result, codes):
@@ -168,30 +180,41 @@ def build_data_test(case, rot=0):
     shape = tuple(case['shape'])
     nbin = int(np.prod(shape)) if shape else 1
     kinds = case.get('bins') or ['e'] * len(shape)
-    refv = [10.0 + i for i in range(nbin)]
+    kind = case['kind'] if case['kind'] in DATA_KINDS else 'student'
+    vdt, edt = case.get('dtype'), case.get('edtype')
+    integral = vdt is not None and vdt[0] in 'iub'
+    if vdt == 'b1' and kind == 'student':
+        vdt, integral = 'i1', True           # numpy has no boolean subtraction
+    # values with a fractional part for the inexact types (so that the number format matters)
+    refv = [(i % 2 if vdt == 'b1' else 10.0 + i) if integral else 10.0 + i + (1.0 / 30 if vdt else 0.0)
+            for i in range(nbin)]
     refe = [0.5 + 0.25 * (i % 3) for i in range(nbin)]
     lay = Lay(case.get('lay'))
     if case.get('const_err'):
         refe = [0.5] * nbin
-    ref = _dataset(shape, refv, refe, kinds, 'ref', lay)
+    ref = _dataset(shape, refv, refe, kinds, 'ref', lay, (vdt, edt))
     dsets = []
-    kind = case['kind'] if case['kind'] in DATA_KINDS else 'student'
     for k, fails in enumerate(case['fail']):
         fails = fails[rot:] + fails[:rot]
         vals, errs = [], []
         for i in range(nbin):
             err = 0.75 + 0.125 * k if case.get('const_err') else 0.5 + 0.125 * ((i + k) % 4)
             if kind in ('equal', 'approx'):
-                vals.append(refv[i] + (1.0 + k if fails[i] else 0.0))
+                if vdt == 'b1':
+                    vals.append(refv[i] != bool(fails[i]))
+                else:
+                    vals.append(refv[i] + (1.0 + k if fails[i] else 0.0))
             else:
                 sig = (refe[i] ** 2 + err ** 2) ** 0.5
                 lev = fails[i]
                 # 0 passes, 1 fails clearly, 2 fails Student only (marginal), 3 NaN
                 tval = {0: 0.25 * ((i + k) % 5), 1: 5.0 + k + (i % 3), 2: 3.0 + 0.02 * (i % 4)}.get(lev, 0.0)
                 sign = -1.0 if (i + k) % 2 else 1.0
+                if lev == 3 and integral:
+                    lev, tval = 1, 6.0       # no NaN in an integer column
                 vals.append(float('nan') if lev == 3 else refv[i] + sign * tval * sig)
             errs.append(err)
-        dsets.append(_dataset(shape, vals, errs, kinds, f'ds{k}', lay))
+        dsets.append(_dataset(shape, vals, errs, kinds, f'ds{k}', lay, (vdt, edt)))
     name = case.get('name', 'the test')
     if kind == 'equal':
         return TestEqual(ref, *dsets, name=name)
@@ -264,6 +287,8 @@ class Intern:
         return self.ids.setdefault(text, len(self.ids) + 10)
 
     def cell(self, text):
+        if text in ('True', 'False'):      # str(bool): the same cell whatever column it is in
+            return f'CB {cb(text == "True")}'
         return f'CI {self(text)}'
 
 
@@ -614,7 +639,7 @@ def run_case(case):
     from valjean.javert.verbosity import Verbosity
     rec = Rec(case)
     kind = case['kind']
-    if kind == 'strtable':
+    if kind in ('strtable', 'coltable'):
         return run_strtable(rec, case)
     intern = Intern()
     result = build_result(case)
@@ -626,6 +651,9 @@ def run_case(case):
         if len(bad) != 1:       # the join of a single key is the key itself
             joins[', '.join(bad)] = 'CJoin ' + clist([cn(intern(k)) for k in bad])
     rec.count('kind_' + kind)
+    if case.get('dtype'):
+        rec.count('value_dtype_' + case['dtype'])
+        rec.count('error_dtype_' + (case.get('edtype') or 'f8'))
     if case.get('lay') or case.get('rlay'):
         rec.count('cases_with_non_C_layouts')
         for code in set((case.get('lay') or '') + (case.get('rlay') or '')):
@@ -826,13 +854,35 @@ def _verb(name):
     return Verbosity[name]
 
 
+def build_column(spec):
+    '''a TableTemplate column from its JSON description [dtype code, values]: 'list' = Python
+    list of Python scalars, 'c8'/'c16' complex from [re, im] pairs, 'U' numpy strings, else numpy dtype'''
+    code, values = spec
+    if code == 'list':
+        return list(values)
+    if code in ('c8', 'c16'):
+        return np.array([complex(a, b) for a, b in values], dtype=code)
+    if code == 'U':
+        return np.array(values, dtype=str)
+    return np.array(values).astype(code)
+
+
 def run_strtable(rec, case):
-    '''a hand-made TableTemplate of strings through RstTable'''
+    '''a hand-made TableTemplate (strings, or columns of every dtype) through RstTable'''
     from valjean.javert.rst import RstTable
     from valjean.javert.templates import TableTemplate
-    headers, cols, mask = case['headers'], case['cols'], case['mask']
-    rec.count('kind_strtable')
-    tab = TableTemplate(*[list(c) for c in cols], headers=list(headers),
+    headers, mask = case['headers'], case['mask']
+    rec.count('kind_' + case['kind'])
+    if case['kind'] == 'coltable':
+        columns = [build_column(spec) for spec in case['columns']]
+        for spec in case['columns']:
+            rec.count('column_dtype_' + spec[0])
+        # expected texts from the elements, by dtype kind (see fmt)
+        cols = [[fmt(x) for x in flat(col)] for col in columns]
+    else:
+        cols = case['cols']
+        columns = [list(c) for c in cols]
+    tab = TableTemplate(*columns, headers=list(headers),
                         highlights=[list(m) for m in mask])
     try:
         text = str(RstTable(tab))
@@ -926,6 +976,19 @@ def gen_data_case(rng, kind, big=False):
         case['ndf'] = rng.choice([20, 100])
     if kind in DATA_KINDS and shape and rng.random() < 0.8:
         case['ops'] = rand_ops(rng, shape)
+    # dtypes of the arrays handed to the code (0-d: numpy scalars of that type, or Python scalars)
+    if rng.random() < 0.5:
+        case['dtype'] = rng.choice(VALUE_DTYPES + (['py'] if not shape else []))
+        if rng.random() < 0.6:
+            case['edtype'] = rng.choice(ERROR_DTYPES)
+        if kind not in ('equal', 'approx'):
+            # scipy's special functions (p-values of the Student test) reject longdouble statistics
+            if case['dtype'] == 'g':
+                case['dtype'] = 'f4'
+            if case.get('edtype') == 'g':
+                case['edtype'] = 'f2'
+        if case['dtype'][0] in 'iub':
+            case['fail'] = [[min(lev, 2) if lev != 3 else 1 for lev in row] for row in case['fail']]
     # memory layouts of the arrays handed to the code (values, errors; arrays of the result object)
     if shape and rng.random() < 0.6:
         mode = rng.random()
@@ -1015,6 +1078,40 @@ def gen_str_case(rng, safe):
     return {'kind': 'strtable', 'headers': headers, 'cols': cols, 'mask': mask, 'safe': safe}
 
 
+COL_DTYPES = ['f8', 'f4', 'f2', 'g', 'i1', 'i2', 'i4', 'i8', 'u1', 'u2', 'u4', 'u8', 'b1', 'c8', 'c16', 'U', 'list']
+
+
+def gen_col_case(rng):
+    '''a TableTemplate whose columns have all sorts of dtypes (first column: names)'''
+    ncol, nrow = rng.randint(2, 5), rng.randint(1, 4)
+    columns = [['U' if rng.random() < 0.5 else 'list', [rng.choice(['a', 'ok', 'Galahad', 'x y', 'ds0']) + str(i)
+                                                         for i in range(nrow)]]]
+    for _ in range(ncol - 1):
+        code = rng.choice(COL_DTYPES)
+        if code in ('c8', 'c16'):
+            vals = [[rng.choice([0.0, 1.0, 1 / 3, 2.5e-7]), rng.choice([0.0, 2.0, -1 / 7])] for _ in range(nrow)]
+        elif code[0] == 'f' or code == 'g':
+            vals = [rng.choice([0.0, 1.0, 1 / 30, 1 / 3, 12345.678, 2.5e-7, 65000.0, -0.1, float('nan'), float('inf')])
+                    for _ in range(nrow)]
+        elif code[0] == 'i':
+            vals = [rng.randint(-100, 100) for _ in range(nrow)]
+        elif code[0] == 'u':
+            vals = [rng.randint(0, 200) for _ in range(nrow)]
+        elif code == 'b1':
+            vals = [rng.random() < 0.5 for _ in range(nrow)]
+        elif code == 'U':
+            vals = [rng.choice(SAFE_WORDS) for _ in range(nrow)]
+        else:   # Python list of Python scalars of one sort, or ints and floats mixed
+            sort = rng.choice(['int', 'float', 'bool', 'str', 'mixed'])
+            vals = [{'int': rng.randint(-5, 5), 'float': rng.choice([1 / 3, 2.0, 1e-9]), 'bool': rng.random() < 0.5,
+                     'str': rng.choice(SAFE_WORDS),
+                     'mixed': rng.choice([1, 2.5, 7, 1 / 3])}[sort] for _ in range(nrow)]
+        columns.append([code, vals])
+    mask = [[rng.random() < 0.3 for _ in range(nrow)] for _ in range(ncol)]
+    return {'kind': 'coltable', 'headers': [f'h{j}' for j in range(ncol)], 'columns': columns, 'mask': mask,
+            'safe': True}
+
+
 CORPUS = [
     # defects of the pinned tree
     {'kind': 'student', 'shape': [5], 'bins': ['e'], 'fail': [[0, 0, 0, 1, 0]], 'ndf': None,
@@ -1042,6 +1139,20 @@ CORPUS = [
     {'kind': 'holm', 'shape': [3, 2], 'bins': ['c', 'c'], 'fail': [[0, 0, 0, 0, 0, 0], [0, 0, 0, 1, 0, 0]],
      'ndf': 20, 'lay': 'TS', 'rlay': 'FNS'},
     {'kind': 'bonf', 'shape': [4], 'bins': ['e'], 'fail': [[0, 1, 0, 0]], 'ndf': 20, 'lay': 'SN', 'rlay': 'B'},
+    # dtypes: every inexact type goes through the number format, the others through str
+    {'kind': 'equal', 'shape': [3], 'bins': ['e'], 'fail': [[0, 1, 0]], 'dtype': 'f4', 'ops': [['get', [[1, None]]], ['join', [1]]]},
+    {'kind': 'student', 'shape': [2, 2], 'bins': ['e', 'c'], 'fail': [[0, 1, 0, 3]], 'ndf': 20, 'dtype': 'f2', 'edtype': 'f4'},
+    {'kind': 'approx', 'shape': [2], 'bins': ['c'], 'fail': [[1, 0], [0, 0]], 'dtype': 'g', 'lay': 'N'},
+    {'kind': 'equal', 'shape': [4], 'bins': ['e'], 'fail': [[0, 0, 1, 0]], 'dtype': 'b1'},
+    {'kind': 'student', 'shape': [3], 'bins': ['c'], 'fail': [[0, 1, 0]], 'ndf': None, 'dtype': 'i2', 'edtype': 'f4'},
+    {'kind': 'bonf', 'shape': [3], 'bins': ['e'], 'fail': [[0, 1, 0], [0, 0, 0]], 'ndf': 20, 'dtype': 'f4', 'edtype': 'f4'},
+    {'kind': 'student', 'shape': [], 'bins': [], 'fail': [[1]], 'ndf': 20, 'dtype': 'py'},
+    {'kind': 'equal', 'shape': [], 'bins': [], 'fail': [[1], [0]], 'dtype': 'f4'},
+    {'kind': 'coltable', 'headers': ['n', 'f4', 'f2', 'g', 'i1', 'b', 'c', 'mixed'], 'safe': True,
+     'columns': [['U', ['a', 'b']], ['f4', [1 / 30, 12345.678]], ['f2', [1 / 3, 65000.0]], ['g', [1 / 3, 2.5e-7]],
+                 ['i1', [-5, 100]], ['b1', [True, False]], ['c16', [[1 / 3, 2.0], [0.0, -1 / 7]]], ['list', [1, 2.5]]],
+     'mask': [[False, False], [True, False], [False, True], [False, False], [False, True], [True, False],
+              [False, False], [False, True]]},
     {'kind': 'tasks', 'counts': []},                                       # empty summary
     {'kind': 'tests', 'counts': []},
     {'kind': 'tasks', 'counts': [['FAILED', 2]]},                          # first row is a failure
@@ -1080,6 +1191,8 @@ def gen_cases(ctx):
         cases.append(case)
     for i in range(80 if quick else 1500):
         cases.append(gen_str_case(rng, safe=i % 2 == 0))
+    for i in range(40 if quick else 800):
+        cases.append(gen_col_case(rng))
     return cases
 
 
